@@ -39,6 +39,9 @@ def lock_acquire(ip, lock):
         st.oblige('lock:no-self-deadlock', BoolVal(False))
     g['held'] += 1
     st.ghost.setdefault('lock_log', []).append(('acquire', lock.key))
+    hook = st.ghost.get('on_acquire')
+    if hook and g['held'] == 1:
+        hook(ip, lock)
 
 
 def lock_release(ip, lock):
